@@ -38,6 +38,19 @@ Definition in_own_table (ety:nat) : bool :=
   existsb (fun x => match r_trig x with TrEv e => Nat.eqb e ety | _ => false end) (m_rows mc).
 Definition is_end_interrupt (rn:rnode) (ety:nat) : bool :=
   endintr_active rn ety && (negb (c_fct cf) || in_own_table ety).
+(* user flags: visitor over the active configuration (active_recursive).  OR: some visited state carries the flag.
+   AND: no visited state - submachine states themselves included - lacks it; a machine that is not running is not
+   traversed at all *)
+Definition mflag_or (rn:rnode) (f:nat) : bool :=
+  active_any rn (fun st => memb f (s_flags st)) (fun co kn => co_flag_or co kn f).
+Definition mflag_and (rn:rnode) (f:nat) : bool :=
+  negb (running rn) ||
+  forallb (fun s => memb f (s_flags (get_state mc s)) &&
+                    match mchild s, nth s (kids rn) None with
+                    | Some co, Some kn => co_flag_and co kn f
+                    | _, _ => true
+                    end) (act rn).
+
 Definition mblocked (rn:rnode) (ety:nat) : bool :=
   has_blocking mc && (term_active rn || (intr_active rn && negb (is_end_interrupt rn ety))).
 
@@ -72,7 +85,7 @@ Definition on_state_entry_completed (s r:nat) : M unit :=
   if negb (is_sub mc s) && state_has_completion mc s then push_msg_front (QCompl s r false) else ret tt.
 
 (* call_entry of a transition, and the per-state step of state_entry_visitor *)
-Definition mexec_entry (fuel s:nat) (ev:evt) (k:ekind) : M unit :=
+Definition mexec_entry_gen (fwd:bool) (fuel s:nat) (ev:evt) (k:ekind) : M unit :=
   match mchild s with
   | Some co =>
       min_child s tt (co_entry_pre co ev k) ;;
@@ -81,10 +94,13 @@ Definition mexec_entry (fuel s:nat) (ev:evt) (k:ekind) : M unit :=
   | None =>
       mcb KEntry s ev false ;;
       match s_kind (get_state mc s) with
-      | KExitPt ety => push_up (Evt ety (e_pay ev)) ;; mabsorb_up
+      | KExitPt ety => if fwd then push_up (Evt ety (e_pay ev)) ;; mabsorb_up else ret tt
       | _ => ret tt
       end
   end.
+(* call_entry of a transition forwards the event of an exit pseudo state; the state_entry_visitor (initial /
+   history / explicit entry of a whole machine) only calls on_entry *)
+Definition mexec_entry := mexec_entry_gen true.
 
 Definition mrun_action (x:row) (ev:evt) : M nat :=
   match r_act x with
@@ -100,6 +116,10 @@ Definition mexec_row (fuel r:nat) (x:row) (ev:evt) : M nat :=
   | None => b <- mrun_guard x ev ;; if b then mrun_action x ev else ret HANDLED_GUARD_REJECT
   | Some nxt =>
       let cur := r_src x in
+      rn <- get ;;
+      if match r_exitpt x with Some p => negb (exit_pt_active rn cur p) | None => false end
+      then ret HANDLED_FALSE          (* the row leaves an exit point that is not the submachine's active state *)
+      else
       b <- mrun_guard x ev ;;
       if negb b then ret HANDLED_GUARD_REJECT
       else
@@ -312,7 +332,7 @@ Definition history_set_ids (ety:nat) : M unit :=
 Fixpoint enter_states (fuel:nat) (ev:evt) (l:list nat) (rid:nat) : M unit :=
   match l with
   | [] => ret tt
-  | s :: t => mexec_entry fuel s ev EkPlain ;; on_state_entry_completed s rid ;; enter_states fuel ev t (S rid)
+  | s :: t => mexec_entry_gen false fuel s ev EkPlain ;; on_state_entry_completed s rid ;; enter_states fuel ev t (S rid)
   end.
 
 Definition preprocess_entry : M unit :=
@@ -386,6 +406,7 @@ Definition mp11_ops : child_ops :=
            mcb_enqueue
            (fun fuel maxev => process_event_pool (mpei fuel) fuel maxev ;; ret tt)
            mlevel_trigs
-           term_active intr_active endintr_active defers_active.
+           term_active intr_active endintr_active defers_active
+           mflag_or mflag_and.
 
 End Mp11Level.
